@@ -48,6 +48,7 @@ pub fn run(opts: &Opts) -> i32 {
         "C18" => c18::run(opts),
         "C19" => c19::run(opts),
         "C20" => c20::run(opts),
+        "noop" => 0,
         "smoke" => smoke::run(opts),
         "leak" => smoke::leak(opts),
         other => {
